@@ -38,10 +38,7 @@ def grid(c, rng, tier, _results=None):
             continue
         L = len(decode_schedule(ex[0]["sched"])[1])
         has_reset = any(" reset_steps" in l for l in unb["progs"][n])
-        for d in (-2, -1, 0, 1, 2):
-            nb = L + d
-            if nb < 1:
-                continue
+        for nb in sorted({L + d for d in (-2, -1, 0, 1, 2) if L + d >= 0} | {0}):      # the corner 0 always
             for kind in ("fail", "cont"):
                 nm = f"{n}_{kind}{nb}"
                 meta[nm] = (n, L, nb, kind, has_reset)
